@@ -234,6 +234,93 @@ static bool endSegTieCase(const vh::Args &a, long k, int argc, char **argv) {
     return true;
 }
 
+// Fourth family ("zcross-rtl" / "zcross-ltr"): a wide empty channel between two tall shapes; connector K runs
+// straight down the centre line of the channel (one segment: first and last, hence fixed); n = 2..3 connectors
+// cross the channel as Z-bends (end points 10 inside the shapes, leaving / arriving along the crossing axis)
+// whose middle runs have pairwise DISJOINT spans along the channel, so zigzag centring puts every one of
+// them exactly onto K. Each overlaps K but not the other Z-runs: in the sorted region K has several overlapping
+// neighbours that do not overlap each other (crossing right-to-left sorts them all before K, left-to-right all
+// after it). The channel is >= 200 wide, far more than (m+1)*d, so all Z-runs have to be moved off K.
+static bool zCrossCase(const vh::Args &a, long k, int argc, char **argv) {
+    vh::Rng r = vh::caseRng(a.seed, k, 3);
+    static const double ds[] = {1, 4, 10};
+    double d = ds[r.range(0, 2)];
+    int n = (int) r.range(2, 3), m = n + 1;
+    bool rtl = r.coin();
+    bool transpose = r.coin();
+    unsigned opts = r.coin() ? (4u | 8u) : (unsigned) (2 * r.range(0, 15));   // defaults, or any combination with final-nudge off
+    double Wc = 2.0 * r.range(100, 200);                      // free channel width
+    double x0 = 100, x1 = x0 + Wc, cx = x0 + Wc / 2;
+    double L = x0 - 10, R = x1 + 10;
+    // spans of the Z-runs: consecutive, separated by >= 20
+    std::vector<double> ya, yb;
+    double y = 80 + (double) r.range(0, 40);
+    for (int i = 0; i < n; ++i) {
+        double len = 10.0 * r.range(4, 15);
+        bool up = r.coin();                                   // source higher or lower than target
+        ya.push_back(up ? y + len : y); yb.push_back(up ? y : y + len);
+        y += len + 10.0 * r.range(2, 6);
+    }
+    double H = y + 80;
+    auto P = [&](double x, double yy) { return transpose ? Point(yy, x) : Point(x, yy); };
+    auto D = [&](double dx) -> ConnDirFlags { return transpose ? (dx > 0 ? ConnDirDown : ConnDirUp) : (dx > 0 ? ConnDirRight : ConnDirLeft); };
+    auto mkRect = [&](double xa, double y0, double xb, double y1) {
+        Point p = P(xa, y0), q = P(xb, y1);
+        return Rectangle(Point(std::min(p.x, q.x), std::min(p.y, q.y)), Point(std::max(p.x, q.x), std::max(p.y, q.y)));
+    };
+    vh::beginCase(k, rtl ? "zcross-rtl" : "zcross-ltr");
+    printf("cfg %s %s %d %d %s %u %s %d zcross %d\n", hx(d).c_str(), hx(Wc).c_str(), m, 1, hx(0.0).c_str(), opts, hx(0.0).c_str(), (int) transpose, (int) rtl);
+    Router *router = nullptr;
+    try {
+        router = new Router(OrthogonalRouting);
+        router->setTransactionUse(true);
+        router->setRoutingParameter(idealNudgingDistance, d);
+        router->setRoutingOption(nudgeOrthogonalSegmentsConnectedToShapes, false);
+        router->setRoutingOption(nudgeOrthogonalTouchingColinearSegments, (opts & 2) != 0);
+        router->setRoutingOption(performUnifyingNudgingPreprocessingStep, (opts & 4) != 0);
+        router->setRoutingOption(nudgeSharedPathsWithCommonEndPoint, (opts & 8) != 0);
+        router->setRoutingOption(penaliseOrthogonalSharedPathsAtConnEnds, (opts & 16) != 0);
+        Rectangle rl = mkRect(0, 0, x0, H), rr = mkRect(x1, 0, x1 + 100, H);
+        printf("obstacle %s %s %s %s\n", hx(rl.ps[3].x).c_str(), hx(rl.ps[3].y).c_str(), hx(rl.ps[1].x).c_str(), hx(rl.ps[1].y).c_str());
+        printf("obstacle %s %s %s %s\n", hx(rr.ps[3].x).c_str(), hx(rr.ps[3].y).c_str(), hx(rr.ps[1].x).c_str(), hx(rr.ps[1].y).c_str());
+        new ShapeRef(router, rl, 1);
+        new ShapeRef(router, rr, 2);
+        std::vector<ConnRef *> conns;
+        {
+            Point s = P(cx, 50), t = P(cx, H - 50);
+            printf("conn 0 %s %s %s %s\n", hx(s.x).c_str(), hx(s.y).c_str(), hx(t.x).c_str(), hx(t.y).c_str());
+            ConnRef *c = new ConnRef(router, ConnEnd(s), ConnEnd(t), 100);
+            c->setRoutingType(ConnType_Orthogonal);
+            conns.push_back(c);
+        }
+        for (int i = 0; i < n; ++i) {
+            Point s = P(rtl ? R : L, ya[i]), t = P(rtl ? L : R, yb[i]);
+            printf("conn %d %s %s %s %s\n", i + 1, hx(s.x).c_str(), hx(s.y).c_str(), hx(t.x).c_str(), hx(t.y).c_str());
+            ConnRef *c = new ConnRef(router, ConnEnd(s, D(rtl ? -1 : 1)), ConnEnd(t, D(rtl ? 1 : -1)), (unsigned) (101 + i));
+            c->setRoutingType(ConnType_Orthogonal);
+            conns.push_back(c);
+        }
+        fflush(stdout);
+        c10r::arm();
+        router->processTransaction();
+        c10r::dump();
+        for (int i = 0; i < m; ++i) {
+            pts("route", i, conns[i]->route(), transpose);
+            pts("disp", i, conns[i]->displayRoute(), transpose);
+        }
+        printf("overlap %d\n", (int) router->existsOrthogonalSegmentOverlap());
+        vh::endCase();
+        delete router;
+    } catch (vpsc::CriticalFailure &f) {
+        c10r::dump();
+        printf("assert %s\n", oneLine(f.what()).c_str());
+        vh::endCase();
+        if (a.only >= 0) _exit(0);
+        reexecFrom(k + 1, argc, argv);
+    }
+    return true;
+}
+
 int main(int argc, char **argv) {
     vh::Args a = vh::parseArgs(argc, argv);
     bool thorough = (a.tier == "thorough");
@@ -243,8 +330,13 @@ int main(int argc, char **argv) {
     for (int i = 1; i + 1 < argc; ++i) if (std::string(argv[i]) == "--from") from = atol(argv[i + 1]);
     long nmid = (thorough ? 8000 : 1500) * a.scale;        // second family, indices ncases .. ncases+nmid-1
     long ntie = (thorough ? 8000 : 1500) * a.scale;        // third family, after the second
-    for (long k = from; k < ncases + nmid + ntie; ++k) {
+    long nzc = (thorough ? 4000 : 800) * a.scale;          // fourth family, after the third
+    for (long k = from; k < ncases + nmid + ntie + nzc; ++k) {
         if (!a.want(k)) continue;
+        if (k >= ncases + nmid + ntie) {
+            if (!zCrossCase(a, k, argc, argv)) return 0;
+            continue;
+        }
         if (k >= ncases + nmid) {
             if (!endSegTieCase(a, k, argc, argv)) return 0;
             continue;
